@@ -196,6 +196,95 @@ FIXED = [
 ]
 
 
+def span_stage(res, harness, model, rng, quick, st):
+    """which tokens the parser binds to which placeholder name: FuncCall.Args against DDP.AliasMatch"""
+    from .. import aliasspans as A
+    progs = []
+    for pi in range(60 if quick else 1200):
+        fns = [A.Fn(i + 1, rng) for i in range(4)]
+        src = A.HEAD + 'Die Zahl zv ist 41.\nDer Text tv ist "vt".\nDer Wahrheitswert wv ist wahr.\n\n' + "".join(f.source() for f in fns)
+        expect = []      # (line, fn, call start col, {param name: (startcol, endcol)} or None, request)
+        table = {}
+        for ci in range(8):
+            k = rng.below(len(fns))
+            f = fns[k]
+            call, nested = A.gen_call(rng, f, fns[:k], 2)
+            stmt = A.Toks().add("Die", "o").add("Zahl", "o").add("r%d" % ci).add("ist", "o")
+            off = len(stmt.t)
+            stmt.extend(call).add(".")
+            text, cols = stmt.render()
+            line = src.count("\n") + 1
+            src += text + "\n"
+            for g, cl, o in [(f, call, 0)] + nested:
+                start = off + o
+                toks = stmt.t[start:]
+                expect.append((line, g, cols[start] + 1, start, stmt.t, cols,
+                               "aliasmatch %s %s" % (A.pattern_req(g, table), ",".join(A.ids_of(toks, table)))))
+        for bi, (bname, bad) in enumerate(A.broken_args()):
+            f = fns[rng.below(len(fns))]
+            stmt = A.Toks().add("Die", "o").add("Zahl", "o").add("b%d" % bi).add("ist", "o")
+            off = len(stmt.t)
+            for k, x in f.pattern:
+                if k == "w":
+                    stmt.add(x)
+                elif x == f.pattern[[i for i, (kk, _) in enumerate(f.pattern) if kk == "p"][0]][1] and not getattr(stmt, "done", False):
+                    stmt.extend(bad)
+                    stmt.done = True
+                else:
+                    stmt.add("1")
+            stmt.add(".")
+            text, cols = stmt.render()
+            line = src.count("\n") + 1
+            src += text + "\n"
+            expect.append((line, f, cols[off] + 1, off, stmt.t, cols,
+                           "aliasmatch %s %s" % (A.pattern_req(f, table), ",".join(A.ids_of(stmt.t[off:], table)))))
+        progs.append((src, expect))
+    outs = corr.parse_many(harness, [{"files": {"main.ddp": s}, "main": "main.ddp", "dump": ["calls"]} for s, _ in progs])
+    answers = corr.run_lines(model, [e[-1] for _, ex in progs for e in ex])
+    ai = 0
+    for (src, expect), o in zip(progs, outs):
+        res.evaluations += 1
+        if o["result"] != "ok":
+            ai += len(expect)
+            res.violation("spans-frontend:%s" % (hash(src) % 10 ** 9), "the front end answers %s on a program of alias calls" % o["result"],
+                          {"program": src, "implementation": {k: v for k, v in o.items() if k != "diags"}})
+            continue
+        dumped = {}
+        for l in o["extra"].get("calls", []):
+            f = l.split()
+            rng_ = f[2]
+            ln, col = rng_.split("-")[0].split(":")
+            dumped[(f[1], int(ln), int(col))] = (rng_, dict(x.split("=") for x in f[3:]))
+        for (line, g, col, start, toks, cols, rq) in expect:
+            ans = answers[ai]
+            ai += 1
+            got = dumped.get((g.name, line, col))
+            if ans.startswith("nomatch"):
+                st["spans:nomatch"] += 1
+                if got is not None:
+                    res.violation("spans:unexpected-call:%s" % (hash(src + rq) % 10 ** 9),
+                                  "the parser parses a call of %s where the matching rules refuse the argument" % g.name,
+                                  {"program": src, "line": line, "column": col, "model_request": rq, "model": ans, "implementation": got})
+                continue
+            st["spans:match"] += 1
+            want = {}
+            f = ans.split()
+            for b in f[2].split(";"):
+                name, sl = b.split("=")
+                s0, ln_ = [int(x) for x in sl.split("+")]
+                a, z = start + s0, start + s0 + ln_ - 1
+                want[g.params[int(name)][0]] = "%d:%d-%d:%d" % (line, cols[a] + 1, line, cols[z] + len(toks[z][0]) + 1)
+            if f[2] != f[4]:
+                res.violation("spans:model-loops-disagree:%s" % (hash(rq) % 10 ** 9), "matchPat and cutArgs disagree (contradicts theorem cutArgs_eq)",
+                              {"model_request": rq, "model": ans}, has_input=False)
+            res.nontrivial("spans:%d:%s" % (len(g.params), ans.split()[1]))
+            if got is None or got[1] != want:
+                res.violation("spans:%s" % (hash(src + rq) % 10 ** 9),
+                              "the arguments of a call of %s are bound to other tokens / other parameter names than the matching rules say" % g.name,
+                              {"program": src, "line": line, "column": col, "expected_args": want, "implementation": got,
+                               "model_request": rq, "model": ans, "all_calls": o["extra"].get("calls", [])})
+
+
 def check(res, tier):
     sd = seed()
     rng = Rng(sd)
@@ -281,6 +370,8 @@ def check(res, tier):
                 first = next((i for i, (x, y) in enumerate(zip((r.stdout + "\n").split("\n"), exp.split("\n"))) if x != y), -1)
                 res.violation("resolution:%s" % (hash(src) % 10 ** 9), "a call went to another function than the model selects (%s, first differing call %d)" % (r.cls, first),
                               {"program": src, "expected_stdout": exp, "implementation": r.as_dict()})
+    # (2b) argument spans and binding by name
+    span_stage(res, harness, model, rng, quick, st)
     # (3) fixed programs
     fixed = pipeline.farm(ddp, [({"main.ddp": s}, pipeline.Config(opt=1), {}) for _, s, _ in FIXED])
     for (name, src, want), r in zip(FIXED, fixed):
